@@ -484,6 +484,9 @@ size_t ZSTD_seekable_initAdvanced(ZSTD_seekable* zs, ZSTD_seekable_customFile sr
 static size_t ZSTD_seekable_decompress_internal(ZSTD_seekable* zs, void* dst, size_t len, unsigned long long offset)
 {
     unsigned long long const eos = zs->seekTable.entries[zs->seekTable.tableLen].dOffset;
+    if (offset > eos) {
+        return ERROR(frameIndex_tooLarge);   /* nothing to read there, and eos - offset would wrap */
+    }
     if (offset + len > eos) {
         len = eos - offset;
     }
